@@ -256,6 +256,10 @@ def closure_rules(model, R):
         if any((isinstance(x, tuple) and x and x[0] == 'unknown') for x in val.values()):
             R.unknown('WIRING', f, f.node, f'{name}: reduction phases', 'a value is computed by a call the rule does not follow')
             continue
+        untracked = [part for part in parts if wrapped(part)[1] is None]
+        if untracked:
+            R.unknown('WIRING', f, untracked[0], f'{name}: result', f'value of {src(untracked[0])[:60]} is computed by a call the rule does not follow')
+            continue
         R.check(nloop == max(n for _, n in want), 'WIRING', f, f.node, f'{name}: number of reduction phases', str(max(n for _, n in want)), str(nloop))
         for k, (part, (wsort, n)) in enumerate(zip(parts, want)):
             w, v = wrapped(part)
